@@ -206,12 +206,19 @@ static void plan_c09(void)
 
 /* ---------------------------------------------------------------- C10 */
 static uint32_t stored_crc(const uint8_t *f) { return le32(f + 21); }
+static const char *c10_env_now;      /* value of the legacy switch at the time of the writing call (NULL = unset) */
+static int c10_env_override;
 static void c10_check_written(struct stripe *s, const uint8_t *f, int idx, const char *what)
 {
     uint32_t size = le32(f + 4);
-    uint32_t want = env_is_legacy(s->env) ? crc_legacy(f + WIRE_HDR, size) : crc_std(f + WIRE_HDR, size);
+    const char *env = c10_env_override ? c10_env_now : s->env;
+    int legacy = env_is_legacy(env);
+    uint32_t want = legacy ? crc_legacy(f + WIRE_HDR, size) : crc_std(f + WIRE_HDR, size);
+    /* the metadata checksum follows the same switch */
+    uint32_t mwant = legacy ? crc_legacy(f, 59) : crc_std(f, 59);
+    if (le32(f + 67) != mwant) vh_violation("wrong-checksum-written", "%s fragment %d: metadata checksum 0x%08x, %s CRC-32 of the 59 metadata bytes is 0x%08x", what, idx, le32(f + 67), legacy ? "historical" : "standard", mwant);
     if (f[20] != CHKSUM_CRC32) vh_violation("checksum-type-not-written", "%s fragment %d: checksum type byte is %d", what, idx, f[20]);
-    else if (stored_crc(f) != want) vh_violation("wrong-checksum-written", "%s fragment %d: stored 0x%08x, %s CRC-32 of the payload is 0x%08x", what, idx, stored_crc(f), env_is_legacy(s->env) ? "historical" : "standard", want);
+    else if (stored_crc(f) != want) vh_violation("wrong-checksum-written", "%s fragment %d: stored 0x%08x, %s CRC-32 of the payload is 0x%08x", what, idx, stored_crc(f), legacy ? "historical" : "standard", want);
     if (f[53] != 0) vh_violation("mismatch-flag-written", "%s fragment %d: mismatch flag byte is %d", what, idx, f[53]);
 }
 static int c10_alt_desc;
@@ -307,6 +314,16 @@ static void plan_c10(void)
                     { char opn[96]; snprintf(opn, sizeof opn, "liberasurecode_reconstruct_fragment:%s", be_name(sh.be)); vh_op(opn); } vh_transitions(1);
                     int rc = liberasurecode_reconstruct_fragment(s.desc, arr, nf, s.flen, d, (char *)ob);
                     if (rc != 0) vh_violation("reconstruct-failed", "dest %d rc=%d", d, rc); else c10_check_written(&s, ob, d, "reconstructed");
+                    /* the switch is read when a fragment is WRITTEN: rebuild the same fragment under each other value, after the encode above */
+                    if (d == 0 || d == sh.k) for (int e2 = 0; e2 < 5; e2++) {
+                        if (e2 == e) continue;
+                        set_env(ENVS[e2]); c10_env_now = ENVS[e2]; c10_env_override = 1;
+                        vh_transitions(1);
+                        rc = liberasurecode_reconstruct_fragment(s.desc, arr, nf, s.flen, d, (char *)ob);
+                        if (rc != 0) vh_violation("reconstruct-failed", "dest %d rc=%d under switch value '%s'", d, rc, ENVS[e2] ? ENVS[e2] : "(unset)");
+                        else { char wn[64]; snprintf(wn, sizeof wn, "reconstructed under switch value '%s' (encoded under '%s')", ENVS[e2] ? ENVS[e2] : "(unset)", ENVS[e] ? ENVS[e] : "(unset)"); c10_check_written(&s, ob, d, wn); }
+                        c10_env_override = 0; set_env(ENVS[e]);
+                    }
                 }
                 /* readers run with the switch unset as well as set: a legacy-written fragment verifies on any reader */
                 /* reader 0 runs under the writer's value of the switch, readers 1..5 under each of the five values: "on any reader" */
@@ -343,6 +360,18 @@ static void plan_c10(void)
                             c10_twin_verdict(&s, w, nm);
                             memcpy(w + 21, sv, 4); memcpy(w + 67, sc, 4);
                         }
+                        /* fragments of writers older than 1.2.0 (no metadata checksum): payload damage must be reported all the same */
+                        if (reader < 2) { static const uint32_t oldv[] = { 0x010000, 0x010009, 0x010100, 0x0101ff };
+                          for (int q = 0; q < 4; q++) for (int dmg = 0; dmg < 2; dmg++) {
+                            if (!vh_case_begin("reader%d/f%d/writer%06x/%s", reader, fi, oldv[q], dmg ? "damaged" : "intact")) continue;
+                            vh_nontrivial();
+                            uint8_t sv[4]; memcpy(sv, w + 63, 4); put_le32(w + 63, oldv[q]);
+                            if (dmg && bs) w[WIRE_HDR + bs / 2] ^= 0x04;
+                            char nm[64]; snprintf(nm, sizeof nm, "writer version %06x, payload %s", oldv[q], dmg ? "damaged" : "intact");
+                            c10_verdict(&s, slot_put(0, w, s.flen), nm);
+                            if (dmg && bs) w[WIRE_HDR + bs / 2] ^= 0x04;
+                            memcpy(w + 63, sv, 4);
+                          } }
                         free(w);
                     }
                 }
@@ -409,6 +438,15 @@ static void plan_c11(void)
                     memcpy(nat, enc_frag(&s, fi), s.flen); memcpy(tw, nat, s.flen); wire_byteswap_twin(tw);
                     c11_compare(&s, fi, nat, tw, "intact");
                 }
+                /* writers older than 1.2.0 (no metadata checksum), incl. versions with a non-zero revision byte: both byte orders must be read alike */
+                { static const uint32_t oldv[] = { 0x010000, 0x010009, 0x010100, 0x010101, 0x0101ff, 0x000001, 0x0100ff };
+                  for (int q = 0; q < 7; q++) for (int dmg = 0; dmg < 2; dmg++) {
+                      if (!vh_case_begin("f%d/writer%06x/%s", fi, oldv[q], dmg ? "payload-damaged" : "intact")) continue;
+                      vh_nontrivial();
+                      memcpy(nat, enc_frag(&s, fi), s.flen); put_le32(nat + 63, oldv[q]); if (dmg && bs) nat[WIRE_HDR + bs - 1] ^= 0x40;
+                      memcpy(tw, nat, s.flen); wire_byteswap_twin(tw);
+                      c11_compare(&s, fi, nat, tw, "old-writer");
+                  } }
                 /* payload damage: both readers must flag it */
                 for (uint32_t bit = 0; bit < bs * 8; bit += (bs > 16 ? 37 : 1)) {
                     if (!vh_case_begin("f%d/pbit%u", fi, bit)) continue;
@@ -505,6 +543,11 @@ static void plan_c12(void)
                 uint32_t lvs[] = { 1, 0x010100, 0x010200, LIB - 1, LIB, LIB + 1, 0xffffffffu, 0 };
                 for (int x = 0; x < 8; x++) for (int sl = 0; sl < 2; sl++) { memcpy(w, base, s.flen); put_le32(w + 63, lvs[x]); if (sl) wire_seal(w, 0); C12("libec_version=%08x/%s", lvs[x], sl ? "resealed" : "stale"); }
                 memcpy(w, base, s.flen); wire_byteswap_twin(w); C12("%s", "opposite-endian-twin");
+                /* opposite-endian fragments of old writers (their version word, byte-swapped, may look older than the running library) */
+                { static const uint32_t oldv[] = { 0x010000, 0x010100, 0x010009, 0x0101ff, 0x010200, 0x000001 };
+                  for (int x = 0; x < 6; x++) { memcpy(w, base, s.flen); put_le32(w + 63, oldv[x]); wire_seal(w, 0); wire_byteswap_twin(w); C12("opposite-endian-twin/writer%06x", oldv[x]); } }
+                /* a correctly sealed header that carries a set mismatch flag over an intact CRC32 payload: the verdict is computed, not copied */
+                if (base[20] == CHKSUM_CRC32) { memcpy(w, base, s.flen); w[53] = 1; wire_seal(w, 0); C12("%s", "stored-mismatch-flag-over-intact-payload"); }
                 memcpy(w, base, s.flen); w[3] ^= 1; C12("%s", "stale-metadata-crc");
                 /* payload damage */
                 uint32_t bs = (uint32_t)(s.flen - WIRE_HDR);
